@@ -36,7 +36,7 @@ impl<'a> Cursor<'a> {
 
 const NAME_CH: &[char] = &['a', 'b', 'k', 'n', 'x', 'Z', '0', '9', '-', '_', 'é', 'ж', '名'];
 const VAL_CH: &[char] = &['a', 'b', ' ', '>', '<', '=', '\'', '"', '/', '*', '-', '.', ':', 'é', '😀', '1', '#', ')', '(', '\\'];
-const WS: &[&str] = &["", " ", "  ", "\t", "\n", " \n "];
+const WS: &[&str] = &["", " ", "  ", "\t", "\n", " \n ", "\n\n"];
 
 fn place(c: &mut Cursor) -> Place {
     let f = c.u8();
